@@ -7,7 +7,8 @@
    [flds], [mths], [prms] are the children of an optional parent; [union eqb ka kb] = ka followed
    by the keys of kb that are not in ka; [row3 a b] = [shared first name; A's name; B's name];
    [first_some a b] = a's comment if it has one, else b's. *)
-From FB Require Import C09.Model C09.Theory C09.Theory2 C09.Theory3 C09.Theory4 C09.Theory5 C09.Theory6 C09.Theory7 C09.Theory8.
+From FB Require Import C09.Model C09.Theory C09.Theory2 C09.Theory3 C09.Theory4 C09.Theory5 C09.Theory6 C09.Theory7 C09.Theory8 C09.Theory9.
+From FB Require C03.Theory6.
 
 (* The key-zipping helper shared by diff and merge is a join: on maps with unique keys the
    combiner sees A's entries in A's order (paired with B's entry of the same key when there is
@@ -98,11 +99,48 @@ Print Assumptions C09_merge_project.
 (* 3'. The same from the other end: the merged set filtered to the key paths that exist in A,
        reduced to the columns (s, a) and to A's comments, IS A — the same entries in the same
        order.  (For B the filtered set has B's entries in the merged order — shared ones first —
-       so the equality holds only up to order; the order-free form is C09_merge_project.) *)
+       so the equality holds only up to order: C09_merge_restrict_b below.) *)
 Theorem C09_merge_restrict : forall A B M, wf2 A = true -> wf2 B = true -> merge A B = Ok M ->
   restrict 1 A M = A.
 Proof. exact merge_restrict. Qed.
 Print Assumptions C09_merge_restrict.
+
+(* 3''. The same for B, precisely.  The merged set filtered to the key paths that exist in B, reduced
+        to the columns (s, b) and to B's comments, is [reorder A B]: B with, at every level (classes;
+        fields and methods of a class; parameters of a method), the entries whose key A's
+        corresponding node also has FIRST, in A's order, followed by the other entries in B's order
+        ([reord], coq/C09/Theory9.v; an entry of B without a corresponding node in A keeps the order of
+        its children).  [reorder A B] is B up to the order of entries: [mappings_equiv] (the relation
+        of C03, coq/C03/Theory6.v) = same namespaces and comment, the class list a permutation of B's
+        with corresponding classes having equal names and comment, permuted fields, and methods
+        permuted with corresponding methods having equal descriptor, names, comment and permuted
+        parameters.  Hence the two have the same canonical (sorted) form. *)
+Theorem C09_merge_restrict_b : forall A B M, wf2 A = true -> wf2 B = true -> merge A B = Ok M ->
+  restrict 2 B M = reorder A B
+  /\ C03.Theory6.mappings_equiv B (restrict 2 B M)
+  /\ canon (restrict 2 B M) = canon B.
+Proof. exact merge_restrict_b. Qed.
+Print Assumptions C09_merge_restrict_b.
+
+(* [reord eqb key ka lb] is what the comment says: a duplicate-free rearrangement of lb with the
+   same elements — the entries with a key in ka, in ka's order, then the others in lb's order *)
+Theorem C09_reord_spec : forall (K V : Type) (eqb : K -> K -> bool) (key : V -> K) (ka : list K) (lb : list V),
+  eqb_ok eqb -> NoDup ka -> NoDup (map key lb) ->
+  reord eqb key ka lb
+  = filter_map (fun k => find_by eqb key k lb) ka ++ filter (fun y => negb (memb eqb (key y) ka)) lb
+  /\ Permutation lb (reord eqb key ka lb)
+  /\ ((forall y, In y lb -> ~ In (key y) ka) -> reord eqb key ka lb = lb).
+Proof.
+  exact (fun K V eqb key ka lb Hok Ha Hb =>
+    conj eq_refl (conj (reord_perm eqb Hok key ka lb Ha Hb) (reord_disjoint eqb Hok key ka lb))).
+Qed.
+Print Assumptions C09_reord_spec.
+
+(* "up to order" cannot be dropped: on the example pair the filtered set is the reordered B and is
+   not B (B lists C3 before C1; the merged set lists the shared C1 first) *)
+Theorem C09_restrict_b_example : restrict_b_example.
+Proof. exact restrict_b_example_holds. Qed.
+Print Assumptions C09_restrict_b_example.
 
 (* 5. The checks of merge.rs on descriptors, parameter indices (merge_equal) and on the first
       names of classes, fields and methods (merge_names) can never fail: what they compare is
